@@ -44,6 +44,9 @@ Oracle (the property, public accessors only; _c14_impl.oracle_run): each pass up
   following round changes nothing; I1-I6 link consistency, sorted stays sorted, names needed by serialization kept,
   serializable stays serializable; analysis passes (CheckerPass always, ShapeInferencePass when inference fails
   or raises) leave a deep snapshot (initializer order, const_value identity, inputs, shapes, types) unchanged.
+  No dangling calls: a call that resolved to a model-local function before a pass still resolves after it.
+  Pass-instance reuse: one pass object / PassManager over a sequence of different models must honour the contract on
+  each model and behave (per round: raised / modified / serialization equal / kinds of change) like a fresh instance.
   RemoveUnusedNodesPass additionally runs on the exhaustive optional-output family (optional_output_specs, 870 specs).
   Faults: onnx.checker.check_model / onnx.shape_inference.infer_shapes rebound to raise; a LazyTensor whose
   evaluation raises during serialization.  Scripted infra oracle: identity rule, PassManager convergence
@@ -794,6 +797,104 @@ def optional_output_specs() -> list[dict]:
     return out
 
 
+# ---- models with function call graphs (deterministic) and the pass-instance-reuse stream
+
+def function_family() -> list[dict]:
+    """main->F0 | main->F0->F1 | + unused Spare->F0 | + unused chain Spare2->Spare->F0 (and F0->F1) | no functions |
+    an unused leaf function.  Used fresh for every pass and as the backbone of the reuse stream."""
+    def leaf(name, op="Relu"):
+        return {"domain": "fdom", "name": name, "graph": {"name": name + "g", "inputs": [name + "x"], "inits": [], "outputs": [name + "y"],
+                                                        "opsets": {"": 20}, "nodes": [{"name": name + "n", "op": op, "ins": [name + "x"], "outs": [name + "y"]}]}}
+
+    def caller(name, callee):
+        x, t, y = name + "x", name + "t", name + "y"
+        return {"domain": "fdom", "name": name, "graph": {
+            "name": name + "g", "inputs": [x], "inits": [], "outputs": [y], "opsets": {"": 20, "fdom": 1},
+            "nodes": [{"name": name + "c", "op": callee, "domain": "fdom", "ins": [x], "outs": [t]},
+                      {"name": name + "n", "op": "Neg", "ins": [t], "outs": [y]}]}}
+
+    def model(funcs, call="F0"):
+        nodes = [{"name": "n0", "op": "Relu", "ins": ["x0"], "outs": ["v0"]}]
+        if call:
+            nodes.append({"name": "n1", "op": call, "domain": "fdom", "ins": ["v0"], "outs": ["v1"]})
+        g = {"name": "g", "inputs": ["x0"], "inits": [], "nodes": nodes, "outputs": ["v1" if call else "v0"],
+             "opsets": {"": 20, "fdom": 1} if funcs else {"": 20}}
+        return {"graph": g, "functions": funcs, "names": {}}
+    return [
+        model([leaf("F0")]),                                                   # A
+        model([caller("F0", "F1"), leaf("F1")]),                               # B
+        model([leaf("F0"), caller("Spare", "F0")]),                            # C
+        model([caller("F0", "F1"), leaf("F1"), caller("Spare2", "Spare"), caller("Spare", "F0")]),   # D
+        model([], call=None),                                                  # E
+        model([leaf("F0"), leaf("Unused", "Abs")]),                            # F
+        model([caller("F0", "F1"), caller("F1", "F2"), leaf("F2")]),           # G
+    ]
+
+
+def _round_sig(r: dict) -> list:
+    return [(rd.get("raised"), rd.get("modified"), rd.get("ser_equal"), tuple(rd.get("diff") or ())) for rd in r["rounds"]]
+
+
+def run_reuse_sequence(pspec, specs: list[dict]) -> list[dict]:
+    """ONE pass object applied to a sequence of different models: the per-model oracle each time, and the
+    behaviour (per round: raised / modified / serialization equal / kinds of change) must be what a FRESH
+    instance of the same pass does on that model."""
+    p = I.make_pass(pspec)
+    out = []
+    for i, spec in enumerate(specs):
+        r = I.oracle_run(spec, pspec, pass_obj=p)
+        fresh = I.oracle_run(spec, pspec)
+        for f in r["failures"]:
+            out.append({"position": i, "failure": f})
+        if _round_sig(r) != _round_sig(fresh):
+            out.append({"position": i, "failure": {"tag": "reuse", "diff": [], "round": 0,
+                        "msg": "a reused pass instance behaves differently from a fresh one on the same model: "
+                               f"reused {_round_sig(r)} vs fresh {_round_sig(fresh)}"}})
+    return out
+
+
+def reuse_stream(ck, specs: list[dict]) -> None:
+    rng = ck.rng
+    fam = function_family()
+    names = sorted(I.pass_catalog())
+    pspecs = list(names) + [{"mgr": ["RemoveUnusedFunctions", "Inline"], "steps": 2, "early": True},
+                            {"mgr": ["Inline", "RemoveUnusedFunctions", "RemoveUnusedOpsets"], "steps": 3, "early": True},
+                            {"seq": ["RemoveUnusedFunctions", "RemoveUnusedNodes"]}, {"fun": "RemoveUnusedFunctions"},
+                            {"fun": "Inline"}]
+    orders = [[0, 1, 2, 3, 4, 5, 6], [6, 5, 4, 3, 2, 1, 0], [4, 0, 3, 0, 1, 5, 2], [2, 3, 6, 1, 0]]
+    reported = 0
+    for ps in pspecs:
+        seqs = [[fam[i] for i in o] for o in orders]
+        if specs:
+            seqs.append([specs[rng.randrange(len(specs))] for _ in range(5)])
+        for seq in seqs:
+            try:
+                fails = run_reuse_sequence(ps, seq)
+            except Exception as e:  # noqa: BLE001
+                ck.broken("oracle-internal-error", f"reuse stream {json.dumps(ps)}: {type(e).__name__}: {e}")
+                continue
+            ck.count(len(seq))
+            ck.hist("reuse_stream", ps if isinstance(ps, str) else next(iter(ps)))
+            ck.nontriv(("reuse", ps, common.digest(seq)))
+            if fails and reported < 3:
+                # shrink the sequence: drop models while a failure of the same tag persists
+                tag = fails[0]["failure"]["tag"]
+                cur = list(seq)
+                changed = True
+                while changed and len(cur) > 1:
+                    changed = False
+                    for k in range(len(cur)):
+                        c2 = cur[:k] + cur[k + 1:]
+                        if any(f["failure"]["tag"] == tag for f in run_reuse_sequence(ps, c2)):
+                            cur, changed = c2, True
+                            break
+                reported += 1
+                ck.violation({"kind": "oracle-reuse", "pass": ps, "sequence": cur,
+                              "failures": run_reuse_sequence(ps, cur),
+                              "required": "a pass object reused on several models honours the contract on each of them and "
+                                          "behaves like a fresh instance"})
+
+
 def gen_composition(rng, names: list[str]):
     k = rng.random()
     pick = lambda: rng.choice(names)  # noqa: E731
@@ -851,6 +952,14 @@ def oracle_sweep(ck, n_specs: int, n_comp: int, specs_first: list[dict]) -> list
             s2["graph"]["inits"][rng.randrange(len(s2["graph"]["inits"]))]["kind"] = "lazyraise"
             for name in ("Checker", "ShapeInference"):
                 run(s2, name)
+    if n_specs >= 100:          # the main sweep: models with function call graphs, fresh instance of every pass
+        for spec in function_family():
+            for name in names:
+                run(spec, name)
+            for ps in ({"mgr": ["Inline", "RemoveUnusedFunctions"], "steps": 3, "early": True}, {"fun": "Inline"},
+                       {"fun": "RemoveUnusedFunctions"}):
+                run(spec, ps)
+        reuse_stream(ck, specs)
     if n_specs >= 100:          # the main sweep (not the short search rounds): exhaustive optional-output family
         fam = optional_output_specs()
         for spec in fam:
@@ -1007,6 +1116,10 @@ def replay(rp: dict) -> int:
         bad = infra_oracle(rp["term"], obs)
         print(json.dumps({"term": rp["term"], "observed": obs, "failures": bad}, indent=1, default=str))
         return 1 if bad else 0
+    if rp.get("kind") == "oracle-reuse":
+        fails = run_reuse_sequence(rp["pass"], rp["sequence"])
+        print(json.dumps({"pass": rp["pass"], "models": len(rp["sequence"]), "failures": fails}, indent=1, default=str))
+        return 1 if fails else 0
     if "spec" not in rp:
         print("replay names a broken obligation/correspondence, no concrete input:",
               json.dumps(rp.get("broken"), indent=1)[:3000])
@@ -1059,6 +1172,16 @@ All reported VIOLATION; "replay" = a concrete failing input found by the oracle,
        the input model" anywhere in the exception chain = identity failure; compositions are re-applied to their own
        result for 3 rounds); (2) scripted infra: gen_functional_mgr — PassManager(early_stop, steps>=1) over well-behaved
        honest passes with at least one functional member, often started where the first step is a no-op, must not raise.
+ S5  (seeded/C14-r3m1) InlinePass skips the bodies of all remaining functions when criteria is None: an UNUSED function
+       that calls a USED one keeps a call to a deleted function -> FIRST MISSED (no generated model had an unused
+       function calling a used one; no clause about dangling calls); now replay: oracle clause "dangling-call" (a call
+       whose operator named a model-local function before the pass must still resolve after it) + generator
+       (gen_spec: Spare->F0, Spare2->Spare->F0, F0->F1) + deterministic function_family() run fresh for every pass.
+ S6  (seeded/C14-r3m3) RemoveUnusedFunctionsPass keeps `_used` across calls -> FIRST MISSED (a fresh pass object per
+       case); now replay kind oracle-reuse: reuse_stream() applies ONE pass object / PassManager to sequences of
+       different models (function_family in 4 orders + a random sequence, every catalog pass + 5 compositions), runs the
+       per-model oracle each time and compares the per-round behaviour with a fresh instance (shrunk to the shortest
+       failing sequence: [main->F0, main->F0->F1] -> dangling-call fdom::F1 + reuse mismatch).
 Also checked: with the four fix commits reverted (old HEAD 823601c) the check reported the six findings
 (KNOWN-FINDING while they were status "known"); with the fixes applied and the old models it reported every
 finding stale + broken correspondences (no false VIOLATION input in 26k oracle evaluations).
